@@ -18,12 +18,19 @@ def _flow_class(ctx):
 def find_dispatch_loop(ctx):
     """The method of Flow that iterates self._preprocess_chain() and rebinds one variable from calls taking it."""
     flow = _flow_class(ctx)
-    for m in flow.methods.values():
+
+    def loop_in(m):
         for n in own_nodes(m.node):
             if isinstance(n, ast.For):
                 for c in calls_in(n.iter):
                     if isinstance(c.func, ast.Attribute) and c.func.attr == '_preprocess_chain':
-                        return flow, m, n
+                        return n
+        return None
+    # the method that contains the loop as written; its normalised view (helpers of the loop body inlined) is analysed
+    for m0 in flow.methods.values():
+        if loop_in(m0) is not None:
+            m = ctx.N(m0)
+            return flow, m, loop_in(m)
     raise AnalysisError('dispatch loop over self._preprocess_chain() not found in class Flow')
 
 
@@ -60,20 +67,12 @@ def r1_dispatch(ctx):
         if p.term == RAISE:
             run.ok('R1', where(ctx.repo, loop), ' & '.join(guards) or '<always>', 'raises')
             continue
-        rebinds = []
-        for itm in p.items:
-            if itm.kind == 'stmt' and isinstance(itm.node, ast.Assign):
-                for t in itm.node.targets:
-                    if isinstance(t, ast.Name) and t.id == ds:
-                        rebinds.append(itm.node)
-        good = False
-        for a in rebinds:
-            names = names_in(a.value)
-            # the link may be wrapped first: row_processor(link)(ds, ...)
-            if ds in names and link in names and isinstance(a.value, ast.Call):
-                good = True
+        # value of the running stream at the end of the iteration, as an expression over its value at the start
+        from sa.pathvals import PathValues
+        v = PathValues(p).value(ds)
+        good = v is not None and isinstance(v, ast.Call) and ds in names_in(v) and link in names_in(v)
         if good and p.term in (FALL, CONTINUE):
-            run.ok('R1', where(ctx.repo, rebinds[-1]), ' & '.join(guards), u(rebinds[-1]))
+            run.ok('R1', where(ctx.repo, loop), ' & '.join(guards), '%s = %s' % (ds, u(v)))
         else:
             last = p.items[-1].node if p.items else loop
             run.fail('R1', where(ctx.repo, last), m.qualname, ' & '.join(guards) or '<always>',
